@@ -217,21 +217,26 @@ class LexProbe:
         key = (s, mode)
         if key in self._cache:
             return self._cache[key]
-        self.it.steps = 0
         self.runs += 1
+        res = self.run_with(self.it, self.tokenise, s, mode)
+        self._cache[key] = res
+        return res
+
+    @staticmethod
+    def run_with(it, tokenise, s, mode):
+        it.steps = 0
         try:
             if mode:
                 args = [False] * mode
                 args[mode - 1] = True
-                toks = self.tokenise(s, *args)
+                toks = tokenise(s, *args)
             else:
-                toks = self.tokenise(s)
+                toks = tokenise(s)
             res = [(t.d["name"].name, t.d["value"]) for t in toks]
         except PRaise as exc:
             res = ("RAISED", f"{exc.cls_name}{exc.pargs}")
         except StopIteration:
             res = ("RAISED", "StopIteration")
-        self._cache[key] = res
         return res
 
     def kinds_of(self, s):
